@@ -97,7 +97,10 @@ def main():
                 f'GV_SRC=<copy>/src python -m gv <prop> --tier {args.tier} for {props}',
             ]
             json.dump(meta, open(os.path.join(dst, 'meta.json'), 'w'), indent=1)
-        print('RESULT', pid, 'confirmed' if meta['confirmed'] else 'NOT-CONFIRMED', 'CAUGHT by ' + ','.join(meta['caught_by']) if meta['caught'] else 'MISSED')
+        n_runs = len(runs)
+        n_hit = sum(1 for v in runs.values() if v['rc'] == 1)
+        meta['caught_in_runs'] = f'{n_hit}/{n_runs}'
+        print('RESULT', pid, 'confirmed' if meta['confirmed'] else 'NOT-CONFIRMED', ('CAUGHT by ' + ','.join(meta['caught_by']) if meta['caught'] else 'MISSED'), f'[{n_hit}/{n_runs} runs]' + (' FLAKY' if 0 < n_hit < n_runs else ''))
         return 0 if meta['caught'] else 1
     finally:
         shutil.rmtree(tmp, ignore_errors=True)
